@@ -18,8 +18,19 @@ import time
 import z3
 
 
+class TaintedInt(int):
+    """An int that remembers which recorded read event produced it (dynamic taint: survives being passed around and stored,
+    not arithmetic). Lets an obligation tell WHICH read of mdib_version ended up as the label of a result."""
+
+    def __new__(cls, value, src):
+        obj = super().__new__(cls, value)
+        obj.src = src
+        return obj
+
+
 class Recorder:
     def __init__(self):
+        self.taint = False      # record mode: reads of watched int variables return TaintedInt(value, index of the read event)
         self.events = []        # recording mode: list of (kind, what)
         self.mode = 'off'       # 'off' | 'record' | 'replay'
         self._tl = threading.local()
@@ -151,6 +162,9 @@ def instrument_mdib(rec: Recorder, mdib):
         def __getattribute__(self, name):
             if name in WATCH_VARS:
                 rec.event('read', name)
+                if rec.taint and rec.mode == 'record':
+                    v = base.__getattribute__(self, name)
+                    return TaintedInt(v, len(rec.events) - 1) if type(v) is int else v
             elif name in TABLES:
                 rec.event('tr', name)            # access to a table (a read unless one of its mutators is called: 'tw')
             return base.__getattribute__(self, name)
